@@ -198,6 +198,9 @@ type c20Route struct {
 	NR51    int `json:"nr51"`
 	Enabled int `json:"enabled"` // bit i: channel i+1 playing
 	NR50    int `json:"nr50"`
+	// Stale: bit i: channel i+1 has played (volume 15, non-mute) and was stopped by its length counter, DAC left
+	// on, before the measurement: it is NOT enabled any more, so a side it alone is routed to must be silent
+	Stale int `json:"stale,omitempty"`
 }
 
 // setup starts the enabled channels with the given parameter variant (0/1) per channel.
@@ -214,6 +217,40 @@ func c20Setup(c c20Route, variant [4]int) *machine.M {
 			v = uint8(255 - i*9)
 		}
 		w(0xff30+uint16(i), v)
+	}
+	if c.Stale != 0 {
+		w(0xff25, 0xff)
+		if c.Stale&1 != 0 {
+			w(0xff10, 0x00)
+			w(0xff11, 0xbf)
+			w(0xff12, 0xf0)
+			w(0xff13, 0x9b)
+			w(0xff14, 0xc7)
+		}
+		if c.Stale&2 != 0 {
+			w(0xff16, 0xbf)
+			w(0xff17, 0xf0)
+			w(0xff18, 0x9b)
+			w(0xff19, 0xc6)
+		}
+		if c.Stale&4 != 0 {
+			w(0xff1a, 0x80)
+			w(0xff1b, 0xff)
+			w(0xff1c, 0x20)
+			w(0xff1d, 0x9b)
+			w(0xff1e, 0xc7)
+		}
+		if c.Stale&8 != 0 {
+			w(0xff20, 0x3f)
+			w(0xff21, 0xf0)
+			w(0xff22, 0x01)
+			w(0xff23, 0xc0)
+		}
+		for i := 0; i < 3*4096 && m.Map.Read(0xff26)&uint8(c.Stale) != 0; i++ {
+			m.A.EndMachineCycle()
+			drain(m)
+		}
+		w(0xff25, uint8(c.NR51))
 	}
 	vol := func(ch int) uint8 {
 		if variant[ch] == 1 {
@@ -268,6 +305,12 @@ func c20RouteCheck(lc *explore.Local, _ struct{}, c c20Route) *explore.Fail {
 	base := c20Setup(c, [4]int{})
 	bl, br := c20Samples(base, cycles)
 	ctx := fmt.Sprintf("NR51=%02x enabled=%x NR50=%02x", c.NR51, c.Enabled, c.NR50)
+	if c.Stale != 0 {
+		ctx += fmt.Sprintf(" (channels %x played earlier and were stopped by their length counters)", c.Stale)
+		if got := int(base.Map.Read(0xff26) & 0x0f); got != c.Enabled {
+			return explore.Failf("harness: channel status after the set-up is not the requested one", "%s: NR52 low nibble %x", ctx, got)
+		}
+	}
 	if len(bl) < 40 || len(bl) != len(br) {
 		return explore.Failf("harness: too few samples", "%s: %d/%d", ctx, len(bl), len(br))
 	}
@@ -400,7 +443,7 @@ func init() {
 					}
 				}
 			}, func() struct{} { return struct{}{} }, c20PowerCheck)
-		explore.Product(c.R, "routing", explore.PartOpt{Bound: "1,400 machine cycles (58 samples) per run, paired runs per unrouted channel", Domain: "NR51 0-255 x playing subset 0-15 x NR50 {00,07,70,77}"},
+		explore.Product(c.R, "routing", explore.PartOpt{Bound: "1,400 machine cycles (58 samples) per run, paired runs per unrouted channel", Domain: "NR51 0-255 x playing subset 0-15 x NR50 {00,07,70,77}; plus NR51 0-255 x 6 playing subsets with every other channel having played and been stopped by its length counter (DAC on)"},
 			func(yield func(c20Route) bool) {
 				for nr51 := 0; nr51 < 256; nr51++ {
 					for en := 0; en < 16; en++ {
@@ -408,9 +451,20 @@ func init() {
 							if !c.Thorough() && nr50 != 0x77 && (nr51*7+en)%8 != 0 {
 								continue
 							}
-							if !yield(c20Route{nr51, en, nr50}) {
+							if !yield(c20Route{NR51: nr51, Enabled: en, NR50: nr50}) {
 								return
 							}
+						}
+					}
+				}
+				// channels that played earlier and were stopped by their length counters (status bit 0, DAC still on)
+				for nr51 := 0; nr51 < 256; nr51++ {
+					for _, en := range []int{0x0, 0x1, 0x2, 0x4, 0x8, 0xb} {
+						if !c.Thorough() && nr51%3 != 0 && en != 0 {
+							continue
+						}
+						if !yield(c20Route{NR51: nr51, Enabled: en, NR50: 0x77, Stale: 0xf &^ en}) {
+							return
 						}
 					}
 				}
